@@ -4,4 +4,5 @@ CONSTANTS
   MaxFields = 2
   Later = {"tx", "sigK"}
   IndDims = {"perms", "acro", "fields", "kids"}
+  OthCfgs = {"none", "mix"}
 INVARIANTS KeepDisjoint NoSigNoPerms FlagsDoNotSign Emit
